@@ -4,6 +4,7 @@ import (
 	"fmt"
 	"go/constant"
 	"go/token"
+	"sort"
 	"strings"
 
 	"golang.org/x/tools/go/ssa"
@@ -39,6 +40,7 @@ var progressNeedsBaseCtx = map[string]string{
 func ruleLoopsBounded(w *World, r *RuleResult) {
 	reach := w.apiReachable()
 	tabUsed := map[string]int{}
+	tabTaken := map[string]map[int]bool{}
 	for _, name := range w.Names {
 		f := w.Funcs[name]
 		if !reach[f] {
@@ -100,11 +102,54 @@ func ruleLoopsBounded(w *World, r *RuleResult) {
 				r.bad(key, pos, "loop driven by ErrDecimal wrappers (no-ops after the first error) whose exit depends on the values they compute, with no loop.done / ed.Err() test on every cycle: it never terminates once an internal step traps")
 				continue
 			}
-			if tabUsed[name] < len(loopTable[name]) {
-				variant := loopTable[name][tabUsed[name]]
-				tabUsed[name]++
+			// the table entry: the function's own, or — for an unexported helper split off a tabled function —
+			// one of its owner's; a loop that divides a big coefficient takes a "coefficient" entry, any other
+			// loop one of the others
+			tname := name
+			if len(loopTable[tname]) == 0 {
+				var keys []string
+				for k := range loopTable {
+					keys = append(keys, k)
+				}
+				sort.Strings(keys)
+				if o := w.ownerIn(f, keys); o != "" {
+					tname = o
+				}
+			}
+			bigDiv := false
+			for lb := range body {
+				for _, in := range lb.Instrs {
+					if c, isC := in.(*ssa.Call); isC && w.calleeName(c) == "(*BigInt).QuoRem" {
+						bigDiv = true
+					}
+				}
+			}
+			pick := -1
+			for ti, v := range loopTable[tname] {
+				if tabTaken[tname] == nil {
+					tabTaken[tname] = map[int]bool{}
+				}
+				if !tabTaken[tname][ti] && strings.Contains(v, "coefficient") == bigDiv {
+					pick = ti
+					break
+				}
+			}
+			if pick >= 0 {
+				variant := loopTable[tname][pick]
+				tabTaken[tname][pick] = true
+				zeroOut := w.zeroExcludedAt(f, h)
+				if !zeroOut && tname != name && !w.addressTaken(f) {
+					// a helper: the value is the caller's, excluded there
+					sites := w.allCallsTo(name)
+					zeroOut = len(sites) > 0
+					for _, sc := range sites {
+						if !w.zeroExcludedAt(sc.Parent(), sc.Block()) {
+							zeroOut = false
+						}
+					}
+				}
 				// a digit-stripping loop (exit: remainder != 0) only terminates for a non-zero value
-				if strings.Contains(variant, "first non-zero digit") && !w.zeroExcludedAt(f, h) {
+				if strings.Contains(variant, "non-zero") && strings.Contains(variant, "coefficient") && !zeroOut {
 					r.bad(key, pos, "the loop divides by ten until a remainder is non-zero, but no dominating test excludes a zero value (for zero every remainder is 0 and the loop never ends); a zero can reach it whenever the zero test is tied to one representation only")
 					continue
 				}
